@@ -108,6 +108,7 @@ type checker struct {
 	// for ids removed since (well before) the ping was first seen.
 	lastRemoved  map[enode.ID]int
 	staleAnswers int // liveness answers that arrived for an entry object that had been replaced meanwhile
+	movedAnswers int // liveness answers for an endpoint the entry no longer has
 }
 
 func failKey(id enode.ID, ip netip.Addr) string { return string(id[:]) + ip.String() }
@@ -244,6 +245,17 @@ func (c *checker) apply(st tabledrv.Step, before portalwire.VerifTableSnap) (ms 
 		for _, e := range before.Buckets[bi].Entries {
 			if e.ID == st.Pinged {
 				cur = e.Inc
+			}
+		}
+		// Likewise when the entry object is the same but has been moved to another endpoint while the check of the old
+		// endpoint was in flight (a newer record arrived from elsewhere): the result says nothing about the endpoint
+		// stored now, so nothing may change - in particular the entry must not become verified.
+		if st.PingNode != nil {
+			for _, e := range before.Buckets[bi].Entries {
+				if e.ID == st.Pinged && (e.IP != st.PingNode.IPAddr() || e.UDP != st.PingNode.UDP()) {
+					c.movedAnswers++
+					return [][]mbucket{m}, false
+				}
 			}
 		}
 		switch {
@@ -495,6 +507,7 @@ func run(r *lib.Run) {
 			mu.Unlock()
 			r.Count("ping_replies_not_observed", st.PingsUnacked)
 			r.Count("liveness_answers_for_replaced_entry_object", o.c.staleAnswers)
+			r.Count("liveness_answers_for_an_endpoint_the_entry_no_longer_has", o.c.movedAnswers)
 			r.Count("entries_replaced_while_liveness_check_in_flight", st.Swaps)
 			if i == 0 {
 				r.Sample(map[string]any{"class": "serial history", "steps": st.Steps, "ops": st.Kinds, "trace_head": st.Trace[:min(12, len(st.Trace))]})
